@@ -140,3 +140,42 @@ def field_type_closure(tys, tyid, seen=None, path=""):
         for i, e in enumerate(t["upvars"]):
             field_type_closure(tys, e, seen, (path or t["s"]) + ".upvar%d" % i)
     return seen
+
+
+# ---------------------------------------------------------------- renamed private items
+def norm_sig(s):
+    import re as _re
+    s = _re.sub(r"^for<[^>]*> ", "", s)
+    return _re.sub(r"&'\w+ ", "&", s)
+
+
+def find_field(adt, name, ty=None, nth=0, count=None):
+    """index of a struct field by today's name, else (renamed) the nth field whose type matches the regex `ty`, provided there
+    are exactly `count` (default 1) fields of that type"""
+    import re as _re
+    from .harness import Anchor
+    fields = adt["variants"][0]["fields"]
+    for i, f in enumerate(fields):
+        if f["name"] == name:
+            return i
+    if ty is not None:
+        hits = [i for i, f in enumerate(fields) if _re.fullmatch(ty, f["ty"])]
+        if len(hits) == (count if count is not None else 1) and nth < len(hits):
+            return hits[nth]
+    raise Anchor("field %s not found" % name)
+
+
+def find_fn(crate, today, sig, scope=None):
+    """definition path of a private function: today's path if it still exists, else the only private function (whose path
+    starts with `scope`) with a body and the given signature regex"""
+    import re as _re
+    from .harness import Anchor
+    have = {b["def"] for b in crate.bodies.values()}
+    if today in have:
+        return today
+    pat = _re.compile(sig)
+    hits = [f["path"] for f in crate.facts["fns"] if not f["pub"] and f["has_body"] and f["path"] in have and not f["path"].startswith("<")
+            and (scope is None or f["path"].startswith(scope)) and pat.fullmatch(norm_sig(f["sig"]))]
+    if len(hits) != 1:
+        raise Anchor("no function %s and %d private functions of signature %s" % (today, len(hits), sig))
+    return hits[0]
